@@ -802,30 +802,39 @@ _lat_cache = {}
 
 
 def lattice(tier):
-  """Deterministic list of configs {"cls","kw"} (non-default options only)."""
+  """Deterministic list of configs {"cls","kw"[,"single"]} (non-default
+  options only): first, for every class, the one-option-at-a-time cases and
+  the pairwise cover (= the quick lattice); in the thorough tier followed by
+  the full admissible product of every class that has at most 1100
+  configurations."""
   if tier in _lat_cache:
     return _lat_cache[tier]
   cfgs, seen, info = [], set(), {}
+
+  def add(cls, kw, o=None):
+    k = cls + jkey(kw)
+    if k not in seen:
+      seen.add(k)
+      c = {"cls": cls, "kw": kw}
+      if o is not None:
+        c["single"] = o
+      cfgs.append(c)
+
   for cls in CLASSES:
     sg = singles(cls)
-    lst = [(kw, o) for kw, o in sg]
     pw, npairs, left = pairwise(cls)
-    lst += [(kw, None) for kw in pw]
     info[cls] = {"singles": len(sg), "pairwise_cases": len(pw),
                  "pairs": npairs, "pairs_uncovered": left}
-    if tier == "thorough":
-      fp = full_product(cls)
+    for kw, o in sg:
+      add(cls, kw, o)
+    for kw in pw:
+      add(cls, kw)
+  if tier == "thorough":
+    for cls in CLASSES:
+      fp = full_product(cls, limit=1100)
       info[cls]["full_product"] = None if fp is None else len(fp)
-      if fp is not None:
-        lst += [(kw, None) for kw in fp]
-    for kw, o in lst:
-      k = cls + jkey(kw)
-      if k not in seen:
-        seen.add(k)
-        c = {"cls": cls, "kw": kw}
-        if o is not None:
-          c["single"] = o
-        cfgs.append(c)
+      for kw in fp or []:
+        add(cls, kw)
   _lat_cache[tier] = (cfgs, info)
   return _lat_cache[tier]
 
